@@ -38,6 +38,11 @@ def check(tier):
     cases = res.printed("CASE")
     if not cases:
         raise ToolError("model produced no cases")
+    # TLC emits the cases level by level, which groups them by module default; the driver compiles
+    # them in batches of two modules (IMPLIED / not), so the order is shuffled (seeded) to make every
+    # batch hold definitions for both modules
+    import random
+    random.Random(core.seed()).shuffle(cases)
     events = drive_and_validate(run, cases, shards=4 if tier == "quick" else 16)
     run.cov["evaluations"] = len(cases)
     run.cov["distinct_nontrivial"] = len({(e["asn"].split("::=", 1)[1], e["implied"]) for e in events
